@@ -668,6 +668,12 @@ def knot_removal(degree, knotvector, ctrlpts, u, **kwargs):
     if isinstance(ctrlpts_new[0][0], float):
         is_volume = False
 
+    # The knot removal tolerance is relative to the magnitude of the control points (refer to Eq 5.30)
+    if is_volume:
+        tol *= max(1.0, max(abs(c) for row in ctrlpts for pt in row for c in pt))
+    else:
+        tol *= max(1.0, max(abs(c) for pt in ctrlpts for c in pt))
+
     # Initialize temp array for storing new control points
     if is_volume:
         temp = [[[] for _ in range(len(ctrlpts_new[0]))] for _ in range((2 * degree) + 1)]
